@@ -43,6 +43,17 @@ pub struct H3 {
     /// loss injection: datagrams from the server are discarded unread until this instant
     pub drop_incoming_until: Option<Instant>,
     pub dropped_datagrams: u64,
+    /// the ClientHello random of this connection, read off the TLS key log (NSS format) of the client
+    pub client_random: Option<Vec<u8>>,
+    /// QUIC datagrams the client had sent before it received the first one from the server (> 1: the ClientHello did not fit in one Initial packet)
+    pub first_flight_datagrams: u32,
+}
+
+#[derive(Clone, Default)]
+struct KeyLog(std::sync::Arc<std::sync::Mutex<Vec<u8>>>);
+impl std::io::Write for KeyLog {
+    fn write(&mut self, b: &[u8]) -> std::io::Result<usize> { self.0.lock().unwrap().extend_from_slice(b); Ok(b.len()) }
+    fn flush(&mut self) -> std::io::Result<()> { Ok(()) }
 }
 
 fn config(alpn: &[&[u8]], idle_ms: u64) -> Result<quiche::Config, String> {
@@ -58,6 +69,7 @@ fn config(alpn: &[&[u8]], idle_ms: u64) -> Result<quiche::Config, String> {
     c.set_initial_max_streams_bidi(100);
     c.set_initial_max_streams_uni(100);
     c.set_application_protos(alpn).map_err(|e| e.to_string())?;
+    c.log_keys();
     Ok(c)
 }
 
@@ -70,8 +82,10 @@ impl H3 {
         for (i, b) in scid.iter_mut().enumerate() { *b = (crate::common::fnv(format!("{}-{}-{:?}", local, i, Instant::now()).as_bytes()) & 0xff) as u8; }
         let mut cfg = config(alpn, idle_ms)?;
         let mut conn = quiche::connect(Some(sni), &quiche::ConnectionId::from_ref(&scid), local, peer, &mut cfg).map_err(|e| e.to_string())?;
+        let keylog = KeyLog::default();
+        conn.set_keylog(Box::new(keylog.clone()));
         let deadline = Instant::now() + timeout;
-        flush(&socket, &mut conn);
+        let first_flight_datagrams = flush(&socket, &mut conn);
         while !conn.is_established() {
             if conn.is_closed() { return Err(format!("closed during the handshake (peer_error={:?}, local_error={:?}, timed_out={})", conn.peer_error().map(|e| e.error_code), conn.local_error().map(|e| e.error_code), conn.is_timed_out())); }
             if Instant::now() >= deadline { return Err("handshake timeout".into()); }
@@ -84,7 +98,9 @@ impl H3 {
         let peer_cert = conn.peer_cert().map(|c| c.to_vec());
         let h3 = quiche::h3::Connection::with_transport(&mut conn, &quiche::h3::Config::new().map_err(|e| e.to_string())?).map_err(|e| format!("h3 transport: {}", e))?;
         flush(&socket, &mut conn);
-        Ok(H3 { socket, local, conn, h3, streams: HashMap::new(), goaway: None, closed: None, peer_cert, alpn: alpn_got, drop_incoming_until: None, dropped_datagrams: 0 })
+        // "<LABEL> <client random, hex> <secret>" per line
+        let client_random = String::from_utf8_lossy(&keylog.0.lock().unwrap()).lines().find_map(|l| l.split(' ').nth(1).and_then(|h| (0..h.len() / 2).map(|i| u8::from_str_radix(h.get(2 * i..2 * i + 2)?, 16).ok()).collect::<Option<Vec<u8>>>()).filter(|v| v.len() == 32));
+        Ok(H3 { socket, local, conn, h3, streams: HashMap::new(), goaway: None, closed: None, peer_cert, alpn: alpn_got, drop_incoming_until: None, dropped_datagrams: 0, client_random, first_flight_datagrams })
     }
 
     /// Send a request head; `authority`/`path` as they go on the wire. Returns the stream id.
@@ -199,12 +215,14 @@ fn read_out(socket: &UdpSocket, local: SocketAddr, conn: &mut quiche::Connection
     }
 }
 
-fn flush(socket: &UdpSocket, conn: &mut quiche::Connection) {
+fn flush(socket: &UdpSocket, conn: &mut quiche::Connection) -> u32 {
     let mut buf = [0u8; MAX_UDP];
+    let mut sent = 0u32;
     loop {
         match conn.send(&mut buf) {
-            Ok((n, info)) => { if socket.try_send_to(&buf[..n], info.to).is_err() { break; } }
+            Ok((n, info)) => { if socket.try_send_to(&buf[..n], info.to).is_err() { break; } sent += 1; }
             Err(_) => break,
         }
     }
+    sent
 }
